@@ -242,6 +242,8 @@ class Interp:
             return self.seq_len(seq.seq)
         if isinstance(seq, SeqPush):
             return self.iadd(self.seq_len(seq.seq), iconst(1))
+        if isinstance(seq, (SeqMap, SeqScan)) and seq.n is not None:
+            return seq.n
         if isinstance(seq, SeqMap):
             return self.seq_len(seq.src) if not isinstance(seq.src, Stream) else ('slen', self.abstract(None, seq.src))
         if isinstance(seq, (SeqScan, SeqCollect, SeqSorted)):
@@ -251,6 +253,13 @@ class Interp:
             return self.seq_len(inner)
         if isinstance(seq, VecV):
             return self.seq_len(seq.seq)
+        if isinstance(seq, SeqConcat):
+            n = iconst(0)
+            for p_ in seq.parts:
+                n = self.iadd(n, self.seq_len(p_))
+            return n
+        if isinstance(seq, SelV):
+            return mk_sel(seq.cond, self.seq_len(seq.a), self.seq_len(seq.b))
         raise Unsupported('length of %s' % type(seq).__name__)
 
     def seq_get(self, seq, idx, state):
@@ -527,6 +536,8 @@ class Interp:
                     self.abstract(state, v.out, depth + 1))
         if isinstance(v, SeqCollect):
             return ('collect', self.abstract(state, v.stream, depth + 1))
+        if isinstance(v, SeqConcat):
+            return ('concat',) + tuple(self.abstract(state, x, depth + 1) for x in v.parts)
         if isinstance(v, SeqSorted):
             return ('sorted', self.abstract(state, v.seq, depth + 1), self.abstract(state, v.cmp, depth + 1))
         if isinstance(v, Stream):
